@@ -32,6 +32,11 @@ fn names() -> Vec<String> {
         format!("{}\u{1F600}", "A".repeat(253)),
         "\u{e9}\u{1F600}".repeat(100),
         format!("{}\u{20ac}{}", "B".repeat(252), "C".repeat(10)),
+        // a name that merely LOOKS like a retired term's label (the flag is a separate field)
+        "obsolete Foo".to_string(),
+        // white space at both ends is part of the name
+        " padded ".to_string(),
+        " ".to_string(),
     ]
 }
 
